@@ -3,6 +3,7 @@ package sim
 import (
 	"bytes"
 	"fmt"
+	"strings"
 	"time"
 )
 
@@ -43,6 +44,7 @@ type c16X struct {
 	NoopOp      int
 	ViaSendMail bool
 	Slow        bool // the producer pauses longer than CommandTimeout between two writes
+	Fault       int  // 0 none; the exchange is broken off: 1 Server.Close at some instant, 2 the backend panics inside Data, 3 a reply write of the server fails (and all later ones), 4 the server stops taking part for ever after some reply (blocked write)
 }
 
 // drawClientBody draws an 8-bit body in which CR occurs only as part of CRLF.
@@ -164,6 +166,24 @@ func genC16(t *Tape, tier string) *Scenario {
 	cl.Ops = append(cl.Ops, ClientOp{Kind: opNoop}, ClientOp{Kind: opQuit})
 	cs := ConnScript{Lat: drawLat(t), LatBack: drawLat(t), SrvCaps: drawCaps(t), Client: cl}
 	cs.defaults()
+	if !x.Slow && t.Chance(1, 8) {
+		// fault stratum: the exchange is broken off somewhere; the client may report
+		// anything but a success the backend did not grant
+		x.Fault = 1 + t.Intn(4)
+		nrep := 3 + len(x.Rcpts) // greeting, hello, MAIL, RCPTs; then 354 and the final replies
+		switch x.Fault {
+		case 1:
+			sc.Admin = []AdminStep{{At: Dur(t.Intn(60)) * 100 * time.Microsecond, Kind: aClose}}
+		case 2:
+			sc.BE.Conns[0].Data[0].V = Verdict{Kind: vPanic, Msg: "in Data"}
+			sc.BE.Conns[0].Data[0].PanicWhen = t.Intn(3)
+		case 3:
+			cs.SrvFaults.FailWriteAt = 1 + t.Intn(nrep+2)
+		default:
+			cs.SrvFaults.BlockWriteAt = 1 + t.Intn(nrep+2)
+			sc.Srv.WriteTO = 0
+		}
+	}
 	sc.Conns = []ConnScript{cs}
 	sc.Strata = []string{fmt.Sprintf("lmtp%v/reject%v/cb%v", sc.Srv.LMTP, x.Reject, x.UseCb)}
 	return sc
@@ -177,11 +197,54 @@ func checkC16(sc *Scenario, h *History) []Violation {
 	v := func(rule, format string, a ...interface{}) {
 		out = append(out, Violation{Rule: rule, Detail: fmt.Sprintf(format, a...), Witness: wit})
 	}
+	if x.Fault > 0 && ch.Client != nil && len(ch.Client.Results) <= x.NoopOp {
+		return out // the client never got past the greeting: nothing was claimed
+	}
 	if ch.Client == nil || len(ch.Client.Results) <= x.NoopOp {
 		v("C16.harness", "client did not run: %+v", ch.Client)
 		return out
 	}
 	res := ch.Client.Results
+	if x.Fault > 0 {
+		// Only this is judged: a success reported to the caller is one the backend granted,
+		// for exactly this message; and the client gives up within its own time limits.
+		d := res[x.DataOp]
+		wit += fmt.Sprintf(" fault=%d", x.Fault)
+		granted := false
+		for _, e := range dataEvents(h, 0) {
+			if e.Done && !e.Panicked && e.Res == "" && e.SawEOF && bytes.Equal(e.Read, dotNormalize(x.Body)) {
+				granted = true
+			}
+		}
+		if len(x.Body) == 0 {
+			granted = granted || len(dataEvents(h, 0)) > 0 && dataEvents(h, 0)[0].Done && dataEvents(h, 0)[0].Res == "" && !dataEvents(h, 0)[0].Panicked
+		}
+		claimed := !d.Skipped && d.Begin != 0 && d.DataErr == "" && d.WriteErr == "" && d.Err == ""
+		if x.UseCb {
+			claimed = false
+			for _, s := range d.Statuses {
+				if strings.HasSuffix(s, "=250") {
+					claimed = true
+				}
+			}
+		}
+		for i := 0; i < x.DataOp; i++ {
+			if res[i].Err != "" {
+				claimed = false
+			}
+		}
+		if claimed && !granted {
+			v("C16.false-success", "the exchange was broken off (fault %d) and the backend never accepted this message, but the client reported success (Close=%q statuses=%v)", x.Fault, d.Err, d.Statuses)
+		}
+		for i, r := range res {
+			// CommandTimeout is 5 minutes, SubmissionTimeout 12: no single call takes longer than both together
+			if r.Begin != 0 && r.End-r.Begin > int64(18*time.Minute) {
+				v("C16.hang", "client op %d (%s) took %v of fake time over a broken exchange", i, opNames[r.Kind], time.Duration(r.End-r.Begin))
+				break
+			}
+		}
+		return out
+	}
 	for i := 0; i < x.DataOp; i++ {
 		if res[i].Err != "" {
 			v("C16.envelope", "client op %d (%s) failed: %s", i, opNames[res[i].Kind], res[i].Err)
@@ -306,6 +369,14 @@ func classifyC16(sc *Scenario, h *History, st *Stats) string {
 	if x.Slow {
 		st.Faults["producer_pauses_longer_than_CommandTimeout"]++
 	}
+	if x.Fault > 0 {
+		st.Faults["exchange_broken_off_"+[]string{"", "by_Server.Close", "by_backend_panic", "by_failing_reply_write", "by_blocked_reply_write"}[x.Fault]]++
+		if r := h.Conns[0].Client; r != nil && len(r.Results) > x.DataOp {
+			if d := r.Results[x.DataOp]; d.Begin != 0 && (d.Err != "" || d.DataErr != "" || d.WriteErr != "") {
+				st.Probes["client_reports_failure_of_broken_exchange"]++
+			}
+		}
+	}
 	if !nt {
 		return ""
 	}
@@ -334,7 +405,7 @@ func init() {
 		Real:        []string{"smtp.Client (Mail, Rcpt, Data, LMTPData, dataCloser.Close, Noop, Quit)", "net/textproto DotWriter/Reader", "smtp.Server.Serve/handleConn", "smtp.Conn handlers", "dataReader", "lineLimitReader"},
 		Stub:        []string{"net.Listener (SimListener)", "net.Conn (SimConn, re-segmenting)", "Backend/Session (SimBackend)", "clock (synctest)"},
 		Assumptions: []string{"an empty body may arrive as \"\" or as a single CRLF", "bodies contain CR only as part of CRLF, as the property states"},
-		Required:    []string{"bare_LF", "line_starting_with_dot", "embedded_end_of_data_lookalike", "no_final_newline", "producer_pauses_longer_than_CommandTimeout", "via_Client.SendMail", "rejected_then_close_twice"},
+		Required:    []string{"bare_LF", "line_starting_with_dot", "embedded_end_of_data_lookalike", "no_final_newline", "producer_pauses_longer_than_CommandTimeout", "via_Client.SendMail", "rejected_then_close_twice", "exchange_broken_off_by_Server.Close", "exchange_broken_off_by_backend_panic", "exchange_broken_off_by_failing_reply_write", "exchange_broken_off_by_blocked_reply_write", "client_reports_failure_of_broken_exchange"},
 		QuickRuns:   150000, ThoroughRuns: 3000000,
 	})
 }
